@@ -231,6 +231,8 @@ class Ctx:
         self.angle_atoms = {}
         self.events = []      # taint / idealisation events on this path
         self.sqrt_args = {}   # sqrt var name -> radicand
+        self._nm = {}
+        self._keep = []
 
     def fresh(self, prefix, sort='real'):
         self.counter += 1
@@ -240,32 +242,35 @@ class Ctx:
     def add_def(self, v, cs):
         self.defn[str(v)] = cs
 
+    def _names(self, e):
+        """names of defined (fresh) variables occurring in e; tokenised from the s-expression (fast), cached per term"""
+        k = e.get_id()
+        r = self._nm.get(k)
+        if r is None:
+            toks = set(_TOKEN.findall(e.sexpr()))
+            r = [t for t in toks if t in self.defn]
+            self._nm[k] = r
+            self._keep.append(e)
+        return r
+
     def cone(self, exprs):
         """defining constraints transitively relevant to exprs"""
+        if not self.defn:
+            return []
         seen = set()
         out = []
         todo = [e for e in exprs if is_sym(e)]
-        visited = set()
         while todo:
             e = todo.pop()
-            stack = [e]
-            names = set()
-            while stack:
-                t = stack.pop()
-                tid = t.get_id()
-                if tid in visited:
-                    continue
-                visited.add(tid)
-                if z3.is_const(t) and t.decl().kind() == z3.Z3_OP_UNINTERPRETED:
-                    names.add(str(t))
-                else:
-                    stack.extend(t.children())
-            for v in names:
-                if v in self.defn and v not in seen:
+            for v in self._names(e):
+                if v not in seen:
                     seen.add(v)
                     out += self.defn[v]
                     todo += self.defn[v]
         return out
+
+
+_TOKEN = re.compile(r'[A-Za-z_][A-Za-z0-9_.!:|-]*')
 
 
 CTX = [Ctx()]
